@@ -38,6 +38,12 @@ class Sem:
             return ("struct", [(f, self.fresh(ft, hint)) for f, ft in T["fields"]])
         if t == "Unit":
             return ("unit",)
+        if t == "Enum":
+            # an enum value is a (label, code) pair of its own type's entries: label = index into the global label table
+            n = "%s%d" % (hint, self.n)
+            self.decls.append("(declare-const %s_lab Int)" % n)
+            self.decls.append("(declare-const %s_code Int)" % n)
+            return ("enum", n, T["vals"])
         if t in ("List", "Set"):
             # a list / set value of symbolic length 0..2 with symbolic elements of the element type's shape
             n = "%s%d_len" % (hint, self.n)
@@ -102,6 +108,10 @@ class Sem:
             return land([self.member(ft, vd[f], strict) for f, ft in T["fields"]])
         if t == "Unit":
             return "true" if val[0] == "unit" else "false"
+        if t == "Enum":
+            if val[0] != "enum":
+                return "false"
+            return lor(["(and (= %s_lab %d) (= %s_code %s))" % (val[1], self.label_id(lab), val[1], smt.int_lit(int(code))) for lab, code in T["vals"]])
         if t in ("List", "Set"):
             if val[0] != "seq" or val[1] != t:
                 return "false"
@@ -116,9 +126,15 @@ class Sem:
             return land([sizes] + elems + distinct)
         raise ValueError("member: unsupported type " + t)
 
+    def label_id(self, lab):
+        self.labels = getattr(self, "labels", {})
+        return self.labels.setdefault(lab, len(self.labels))
+
     def names(self, val):
         if val[0] == "s":
             return [val[2]]
+        if val[0] == "enum":
+            return [val[1] + "_lab", val[1] + "_code"]
         if val[0] == "opt":
             return [val[1]] + self.names(val[2])
         if val[0] == "struct":
@@ -138,6 +154,9 @@ class Sem:
             return {"t": "Optional", "v": self.to_json(val[2], model)}
         if val[0] == "struct":
             return {"t": "Struct", "fields": [[f, self.to_json(v, model)] for f, v in val[1]]}
+        if val[0] == "enum":
+            # the value carries the entries of the type it was drawn from; the real decode() reads the label from the code
+            return {"t": "Enum", "v": int(model[val[1] + "_code"]), "vals": val[2]}
         if val[0] == "seq":
             k = int(model[val[2]])
             return {"t": val[1], "v": [self.to_json(v, model) for v in val[3][:k]]}
